@@ -28,6 +28,16 @@ CLAIMED = {
             'population for every value of the node default.',
             'floats as reals; k<=3 (4 thorough); fixed baud/slot mix; z3 and symx trusted',
             'DESIGN.md §2 C06'),
+    'C14': ('symx',
+            'bounded symbolic execution of the real spectrum-assignment code on bitmaps of symbolic cells with z3 (inductive step '
+            'over request histories); models replayed on the real code',
+            'One call of the real pth_assign_spectrum from an arbitrary spectrum state (every bitmap cell symbolic) for every request '
+            'shape in the bound: accepted => ranges disjoint, free before and occupied after on every path OMS, untouched elsewhere, '
+            'inside band/guard bands, enough slots, fixed N/M used as given, first-fit lowest position; blocked => state unchanged; '
+            'never an exception. Each explored path is a branch of the algorithm valid for all cell valuations reaching it.',
+            'bitmap length 5-9 (7-11 thorough), <=2 slot entries, M<=2, <=2 channels, guard band 1 slot, first_fit; path elements are '
+            'stubs carrying oms_id; z3 and symx trusted',
+            'DESIGN.md §2 C14'),
 }
 
 PENDING_REASON = 'check not built yet in this session (solver-based harness planned in DESIGN.md §2); not claimed until it runs clean'
